@@ -2574,7 +2574,24 @@ XSLTEngineImpl::getResultNamespaceForPrefix(const XalanDOMString&   prefix) cons
 const XalanDOMString*
 XSLTEngineImpl::getResultPrefixForNamespace(const XalanDOMString&   theNamespace) const
 {
-    return m_resultNamespacesStack.getPrefixForNamespace(theNamespace);
+    const XalanDOMString* const     thePrefix =
+        m_resultNamespacesStack.getPrefixForNamespace(theNamespace);
+
+    if (thePrefix != 0)
+    {
+        // The prefix is only usable if it has not been re-declared
+        // for another namespace since...
+        const XalanDOMString* const     theCurrentNamespace =
+            m_resultNamespacesStack.getNamespaceForPrefix(*thePrefix);
+
+        if (theCurrentNamespace == 0 ||
+            equals(*theCurrentNamespace, theNamespace) == false)
+        {
+            return 0;
+        }
+    }
+
+    return thePrefix;
 }
 
 
